@@ -1,7 +1,9 @@
 #!/usr/bin/env python3
 """prints the prompt for a seeding agent: seed_prompt.py <name> <Cxx> [<Cyy> ...]"""
 import json,sys
+import os
 name=sys.argv[1]; ids=sys.argv[2:]
+extra=os.environ.get("SEED_EXTRA","")
 props={json.loads(l)['id']:json.loads(l) for l in open('/verif/properties.jsonl')}
 out=[]
 out.append(f"""You are a software engineer helping to evaluate a test-generation tool. You work on the Rust repository eigerco/lumina (a Celestia data-availability light node) in your own scratch git worktree. The sandbox is OFFLINE: nothing can be downloaded; always pass `--offline` to cargo (or set CARGO_NET_OFFLINE=true). The machine is shared with other agents and may be heavily loaded: give cargo long timeouts, run long commands in the background rather than re-issuing them, never kill processes you did not start.
@@ -25,8 +27,9 @@ Deliverables per property `Cxx` in `/tmp/{name}/out/Cxx/`:
  * `meta.json` — {{"property": "Cxx", "summary": "<one paragraph: what was changed and why it breaks the property>", "needs": "<what specific input/sequence/interleaving/fault is needed to manifest>", "demo_cmd": "<exact command that runs the demonstration>", "demo_result_with_patch": "<fail + key output line>", "demo_result_without_patch": "pass", "existing_tests": "<what you ran and the pass/fail counts with the patch vs. without>"}}.
 Write plain files only (no .md). When everything is delivered, remove your build output and worktree: `rm -rf /tmp/{name}/repo/target; git -C /repo worktree remove --force /tmp/{name}/repo`. Your final message: a short summary per property (files, what the change is, how the demo fails).
 
-Properties:
 """)
+if extra: out.append(extra+"\n")
+out.append("Properties:\n")
 for i in ids:
     p=props[i]
     out.append(f"--- {i}: {p['title']}\nStatement: {p['statement']}\nQuantified over: {p['quantifier']['text']}\nWhy the existing tests cannot settle it: {p['why_tests_cant']}\nCode anchors: {', '.join(p['anchors']['files'])}\n")
